@@ -7,7 +7,7 @@ P = {
     "theorems_module": "Properties.C03",
     "theorems": ["C03_method_list_semantics", "C03_method_list_rejected", "C03_hosts_any", "C03_decode_per_setting",
                  "C03_route_matches_iff", "C03_captures_exact", "C03_unnamed_not_exposed",
-                 "C03_matcher_sees_route_keys", "C03_lookup_answers_as_documented", "C03_lookup_answers_as_documented_now", "C03_lookup_no_panic", "C03_lookup_selected", "C03_selected_only_if_documented",
+                 "C03_matcher_sees_route_keys", "C03_lookup_answers_as_documented", "C03_lookup_answers_as_documented_now", "C03_lookup_no_panic", "C03_lookup_selected", "C03_selected_only_if_documented", "C03_history_independent",
                  "C03_F1_pinned_refuted", "C03_F3_pinned_refuted", "C03_F4_pinned_refuted",
                  "C03_F2_pinned_refuted", "C03_F5_pinned_refuted", "C03_F5_pinned_panic_refuted", "C03_F6_pinned_refuted",
                  "C03_F7_pinned_refuted", "C03_F8_pinned_refuted", "C03_nonvacuous"],
@@ -29,8 +29,12 @@ P = {
             "wildcards; allow_encoded_slashes ''/off/on/no_decode). 50% of the rule sets the validator accepts go as a JSON document through the real "
             "config.ParseRules (decoder + validator) and Rule.DeepCopy, the others as config structs; all through the real ruleFactory.CreateRule and "
             "the real repository; 40% of the multi-rule cases as TWO AddRuleSet calls from two sources (clone of a non-empty tree, one-source-per-node "
-            "constraint, second set possibly refused). Then 3-8 requests (6% of the cases: one rule probed with every method) through the real "
-            "request contexts (request line / X-Forwarded-* / Envoy CheckRequest, no caching by the driver): instantiations of the expressions and "
+            "constraint, second set possibly refused). Then 3-8 requests (6% of the cases: one rule probed with every method), ALL served one after the other by the "
+            "SAME instance of the rule set (same matcher objects) and each additionally by an instance built anew (history independence); 45% of the "
+            "cases get a run of 2-5 requests carrying the same captured TEXT once from a view with RawPath (still encoded, e.g. %41) and once from a "
+            "view without (already decoded: the client sent %2541), in both orders and interleaved. Request contexts: request line / X-Forwarded-* / "
+            "Envoy CheckRequest (real entry points, no caching by the driver) and `direct` (heimdall.Request from url.Parse, the only way to a view "
+            "without RawPath): instantiations of the expressions and "
             "near misses; segments re-encoded with %XX in either hex case, %2F, %2f, '+', %2B, ';', raw and encoded UTF-8, invalid escapes (Envoy), "
             "the former place-holder text. Corpus first: the witness of every (repaired) finding and the documentation's examples. Observed per "
             "request: every matcher call (route, keys, values, answer) through a pass-through recorder between the real tree and the real route "
@@ -68,14 +72,16 @@ P = {
                   "model is tied to the code by running both on ~1200 (quick) / 30000 (thorough) generated rule sets x 3-8 requests per run; the verdict "
                   "is the specification's predicate on the implementation's observation (answers of all matcher calls, selected rule, captures as the "
                   "pipeline sees them, rejection) plus correspondence of the model on accepted/rejected, selected rule, captures, rejection and the "
-                  "(route, answer) projection of the call trace.",
+                  "(route, answer) projection of the call trace. History independence: every request of a case is served by the same matcher instances "
+                  "as the requests before it and must get the answer an instance built anew gives (C03_history_independent states it for the model, "
+                  "which is stateless by construction; the check observes it on the implementation).",
     "level_note": "Trusted: Coq kernel/vm_compute; the driver (generator, recorder between tree and route, Gallina rendering); glob/regex "
                   "engines as recorded oracles; the request view (method, scheme, host, Path, RawPath) as case data. Values that are not validly "
                   "percent-encoded carry no requirement (hypothesis valid_enc; such paths are rejected by net/http and yield an empty Path under "
                   "Envoy). Which of several matching routes is consulted first / backtracking is C02's subject: the C03 theorems speak about the calls "
                   "that are made and the rule that is selected (both directions between stored position and documented expression are proved), not "
                   "about completeness of the search. Correspondence compares accepted/rejected, selected rule, captures, rejection and the (route, answer) "
-                  "projection of the call trace; keys/values are not compared (they are the subject of the theorems). Tree Delete and priority sorting are not modelled (lookups on trees built by Add). Decoder spec reading: a kept "
+                  "projection of the call trace; keys/values are not compared (they are the subject of the theorems). A request view WITHOUT RawPath is produced by no entry point (only by callers that build heimdall.Request themselves); for such views the check requires no panic, history independence and correspondence with the model, but not the decoding clauses (their Path is already decoded; the code decodes captures once more there - noted, not recorded as a finding). Tree Delete and priority sorting are not modelled (lookups on trees built by Add). Decoder spec reading: a kept "
                   "encoded slash is written in the canonical spelling %2F (RFC 3986 2.1), which is what the repair of F7 does.",
     "assumptions": ["the driver is in-package (internal/rules) and wraps rule.Route values; a rename of ruleImpl/routeImpl fields or of the "
                     "Route interface breaks the driver, not the property",
